@@ -389,6 +389,10 @@ impl C18 {
                     // documented boundary: `version + 1` wraps at u64::MAX in the release profile (see Props/C18
                     // `announce_wraps_at_u64_max`); only the node's own signature can create that state
                     Some(o) if !wrap && (e.1 .1 != o.1 .1 + 1) => {
+                        // the property itself: the entry of a committee member is only replaced by a strictly newer one
+                        if (e.1 .1, e.1 .2, e.1 .3) <= (o.1 .1, o.1 .2, o.1 .3) {
+                            out.oracle_fail("announce_replaced_by_not_newer", "announce replaced the node's own entry by one that is not strictly newer (version, timestamp)", input.clone());
+                        }
                         out.oracle_fail("announce_version", "announcement version must be stored version + 1", input.clone())
                     }
                     _ => {}
@@ -929,7 +933,12 @@ impl Gen {
             if with_announce && self.rng.gen_bool(0.25) {
                 let k = self.rng.gen_range(0..NKEYS);
                 let t = *TIMES.choose(&mut self.rng).unwrap();
-                let a = self.addr();
+                // half of the re-announcements keep the address this key announced before (the periodic refresh):
+                // the pair (same address, clock not ahead of the stored timestamp) is where "newer" rests on the version alone
+                let a = match sh.0.get(&k) {
+                    Some(x) if self.rng.gen_bool(0.5) => x.m.0,
+                    _ => self.addr(),
+                };
                 let mut o = json!({"op": "announce", "k": k, "a": a, "s": t.0, "n": t.1});
                 if i == 0 {
                     o["reset"] = json!(true);
@@ -953,6 +962,30 @@ impl Gen {
             let b = self.batch(&sh, &vs, family);
             sh.apply(&vs, &b);
             ops.push(Self::update_op(&vs, &b, i == 0));
+        }
+    }
+
+    /// periodic refresh: the node re-announces the SAME address while its clock stands still, steps back or advances;
+    /// in between, a peer's batch carries the node's own latest announcement back
+    fn case_reannounce(&mut self, ops: &mut Vec<Value>) {
+        let k = self.rng.gen_range(0..5);
+        let a = self.addr();
+        let t0 = 1_700_000_600i64;
+        let mut first = true;
+        let mut v = 0u64;
+        for (i, dt) in [0i64, 0, -30, 45, -600, 0].iter().enumerate() {
+            let mut o = json!({"op": "announce", "k": k, "a": a, "s": t0 + dt, "n": 0});
+            if first {
+                o["reset"] = json!(true);
+                first = false;
+            }
+            ops.push(o);
+            if i == 2 {
+                // the own announcement comes back from a peer (a duplicate: nothing may change)
+                let own = AAnn::honest(k, (a, v, t0 + dt, 0));
+                ops.push(Self::update_op(&[0, 1, 2, 3, 4], &[own], false));
+            }
+            v += 1;
         }
     }
 
@@ -1133,7 +1166,11 @@ impl Prop for C18 {
         // directed cases first
         g.case_announce_top(&mut ops, U64MAX - 1);
         g.case_announce_top(&mut ops, U64MAX);
+        g.case_reannounce(&mut ops);
         for i in 0..opts.n {
+            if i % 16 == 9 {
+                g.case_reannounce(&mut ops);
+            }
             match i % 8 {
                 3 | 7 => g.case_twins(&mut ops),
                 1 | 5 => g.case_contended(&mut ops),
